@@ -28,7 +28,7 @@ ALLOW_UNCONSTRAINED = {
     "streamzeros.n", "streamzeros.r.id", "streamzeros.r.kind",   # n is only constrained when no failure is injected; id / kind only when one is
     "op.h", "op.t", "op.d", "op.src", "op.obs.isn",
     "ctor.log", "ctor.bs", "ctor.l1", "ctor.l2", "ctor.a", "ctor.b", "ctor.obs.*", "ctor.uobs.*",
-    "tinit.via", "tobs.t", "pctor.len_after", "pctor.bad_at", "pctor.len", "pobs.p", "tinit.t", "tfrom.t", "tnew.t", "pinit.p", "pnew.p", "pclear.p",
+    "tinit.via", "tobs.t", "win.nth.*.n", "win.nth.*.n2", "pctor.len_after", "pctor.bad_at", "pctor.len", "pobs.p", "tinit.t", "tfrom.t", "tnew.t", "pinit.p", "pnew.p", "pclear.p",
     "bsvalid.swept", "cap.border", "fnvinit.states",
     "stream.n", "stream.bl", "file.what", "file.meta", "file.delivered",
     "fin.probe.*", "ctor.fn", "ctor.T", "cap.n", "stream.r.id", "stream.r.kind", "file.r.id", "file.r.kind",
